@@ -20,7 +20,8 @@ def make_spec(kind, spec_text, vars_, pastify=False, unit=None, period=None, con
         s.declare_const(n, ty, val)
     if io:
         for v, t in io.items():
-            s.set_var_io_type(v, t)
+            for t1 in t.split('>'):          # 'input>output': declared one way first and corrected afterwards; the last call counts
+                s.set_var_io_type(v, t1)
     if unit is not None:
         s.unit = unit
     if period is not None:
